@@ -55,6 +55,12 @@ pub struct KaCase {
     /// one-way traffic must neither replace the pings nor count as (or against) proof of life
     #[serde(default)]
     pub datagram_every: u64,
+    /// (start ms, length ms): from `start` on the endpoint is not scheduled for `length` ms - a blocked runtime thread, a stopped
+    /// process, a suspended machine - while the peer and the network go on: pongs of pings already sent reach the socket during
+    /// the stall, ticks become overdue, and everything is found at once when the endpoint runs again. With a stall the pongs are
+    /// kept in the transport with their arrival times (what is in the socket does not depend on task scheduling).
+    #[serde(default)]
+    pub sched_stall: Option<(u64, u64)>,
 }
 
 struct Rec {
@@ -73,6 +79,9 @@ struct ClockWs {
     silent: bool,
     ended: bool,
     stall_at: u64,
+    /// Some: pongs are queued here with their arrival time (us since start) instead of being sent by a timer task
+    due: Option<std::collections::VecDeque<u64>>,
+    due_sleep: Option<std::pin::Pin<Box<tokio::time::Sleep>>>,
 }
 
 /// tokio's timer has millisecond granularity; intervals are multiples of 10 ms and every pong delay ends in 5 ms,
@@ -106,7 +115,10 @@ impl WebSocket for ClockWs {
             };
             let mut r = self.rec.lock().unwrap();
             r.pings.push(now);
-            if let Some(us) = delay_us {
+            if let (Some(us), Some(q)) = (delay_us, self.due.as_mut()) {
+                r.pongs_scheduled.push(now * 1000 + us);
+                q.push_back(now * 1000 + us);
+            } else if let Some(us) = delay_us {
                 r.pongs_scheduled.push(now * 1000 + us);
                 let tx = self.tx.clone();
                 tokio::spawn(async move {
@@ -133,6 +145,25 @@ impl WebSocket for ClockWs {
     fn poll_next_unpin(&mut self, cx: &mut Context<'_>) -> Poll<Option<Result<Message, penguin_mux::Error>>> {
         if self.ended {
             return Poll::Ready(None);
+        }
+        // pongs that have reached the socket by now (arrival-time queue), oldest first
+        loop {
+            let Some(q) = self.due.as_mut() else { break };
+            let Some(&front) = q.front() else { break };
+            let now_us = Instant::now().duration_since(self.start).as_micros() as u64;
+            if front <= now_us {
+                q.pop_front();
+                self.due_sleep = None;
+                return Poll::Ready(Some(Ok(Message::Pong)));
+            }
+            let start = self.start;
+            let sl = self.due_sleep.get_or_insert_with(|| Box::pin(tokio::time::sleep_until(start + Duration::from_micros(front))));
+            match sl.as_mut().poll(cx) {
+                Poll::Ready(()) => {
+                    self.due_sleep = None;
+                }
+                Poll::Pending => break,
+            }
         }
         match self.rx.poll_recv(cx) {
             Poll::Ready(Some(m)) => {
@@ -171,7 +202,7 @@ pub fn run_ka(c: &KaCase) -> KaResult {
         let start = Instant::now();
         let rec = Arc::new(Mutex::new(Rec { pings: vec![], pongs_scheduled: vec![], closed_at: None }));
         let (tx, rx) = mpsc::unbounded_channel();
-        let ws = ClockWs { start, rec: rec.clone(), rx, tx, pong: c.pong.clone(), nping: 0, silent: c.silent_transport, ended: false, stall_at: c.sink_stalls_at };
+        let ws = ClockWs { start, rec: rec.clone(), rx, tx, pong: c.pong.clone(), nping: 0, silent: c.silent_transport, ended: false, stall_at: c.sink_stalls_at, due: c.sched_stall.map(|_| Default::default()), due_sleep: None };
         if c.peer_ping_every > 0 {
             // the peer's own pings, 3 ms off the 10 ms grid so that they coincide neither with a tick nor with a pong
             let (txp, every) = (ws.tx.clone(), c.peer_ping_every);
@@ -206,6 +237,13 @@ pub fn run_ka(c: &KaCase) -> KaResult {
                     k += 1;
                     tokio::time::sleep(Duration::from_millis(every)).await;
                 }
+            });
+        }
+        if let Some((at, len)) = c.sched_stall {
+            tokio::spawn(async move {
+                tokio::time::sleep(Duration::from_millis(at)).await;
+                // the clock jumps: nothing runs in between, everything due in the meantime is found at once afterwards
+                tokio::time::advance(Duration::from_millis(len)).await;
             });
         }
         let m1 = mux.clone();
@@ -372,14 +410,14 @@ fn ka_case() -> impl Strategy<Value = KaCase> {
             let peer = prop_oneof![4 => Just(0u64), 1 => Just((i / 20).max(1) * 10), 1 => Just(i.max(10)), 1 => Just(250u64)];
             // a sink that stops being writable at some multiple of 10 ms + 7 (never at a tick, a pong or a peer ping)
             let stall = prop_oneof![5 => Just(0u64), 2 => (0u64..(12 * i.max(10)) / 10).prop_map(|x| x * 10 + 7)];
-            (Just(i), Just(t), pong, any::<bool>(), peer, stall, prop_oneof![4 => Just(0u64), 1 => Just((i / 40).max(1) * 10), 1 => Just((i / 20).max(1) * 10 * 3)]).prop_map(|(interval, timeout, pong, silent_transport, peer_ping_every, sink_stalls_at, datagram_every)| KaCase { interval, timeout, pong, silent_transport, peer_ping_every, sink_stalls_at, datagram_every })
+            (Just(i), Just(t), pong, any::<bool>(), peer, stall, prop_oneof![4 => Just(0u64), 1 => Just((i / 40).max(1) * 10), 1 => Just((i / 20).max(1) * 10 * 3)]).prop_map(|(interval, timeout, pong, silent_transport, peer_ping_every, sink_stalls_at, datagram_every)| KaCase { interval, timeout, pong, silent_transport, peer_ping_every, sink_stalls_at, datagram_every, sched_stall: None })
         })
     })
 }
 
 pub fn c16(ctx: &Ctx, rep: &mut Report) {
     rep.rule = "(I, T) pairs in ms incl. T < I (clamped by the options API, applied in the client's order), T = I, T a multiple / not a multiple of I, either or both disabled; pong policies: constant delay (<= T and late > T), per-ping delays < min(I,T), answered for k rounds then silent, never; in 3 of 7 cases the peer also sends Pings of its own (every I/2, I or 250 ms) whether or not it answers; in 2 of 7 cases the transport's sink stops being writable at a generated moment (from then on nothing reaches the peer, so no pong returns); \
-                transport answering the final Close or staying silent; horizon 20 intervals + T on tokio's paused clock (exact virtual time). Oracle: a ping exactly every I while alive; a KeepaliveTimeout at tau satisfies T <= tau - last pong <= T+I; a connection that survived has no pong-free gap longer than T+I; \
+                transport answering the final Close or staying silent; a directed family in which the endpoint itself is not scheduled for a while (clock jump) while the pong of a ping under way reaches its socket and the next tick becomes overdue - the pong is younger than T when the endpoint runs again, so the connection must stay up; horizon 20 intervals + T on tokio's paused clock (exact virtual time). Oracle: a ping exactly every I while alive; a KeepaliveTimeout at tau satisfies T <= tau - last pong <= T+I; a connection that survived has no pong-free gap longer than T+I; \
                 peers answering every ping within the bound never time out; disabled values send no ping / never time out; after the end the task future completes and pending get_datagram/accept calls fail with Closed. \
                 Non-trivial = at least one pong arrived before the silence began, or T is not a multiple of I. Distinct = distinct case value."
         .into();
@@ -390,6 +428,8 @@ pub fn c16(ctx: &Ctx, rep: &mut Report) {
         "'each ping answered within T' is read as: constant delay <= T, or every delay < min(I,T) (see DESIGN.md C16)".into(),
     ];
     ctx.prop(rep, "keepalive", ctx.tier.pick(200_000, 5_000_000), 300, ka_case, check_ka);
+    // the endpoint itself is not scheduled for a while (blocked thread, stopped process) with a pong arriving meanwhile
+    ctx.enumerate(rep, "scheduling-stall", SCHED_STALL_CASES, 30, sched_stall_case, check_sched_stall);
     // connections that stay up for months (virtual time costs nothing): intervals of hours to weeks, so that the 20-interval horizon
     // spans 2^31 ms (24.8 days), 2^32 ms (49.7 days) and more; same policies and the same oracle
     ctx.prop(rep, "long-uptime", ctx.tier.pick(4_000, 100_000), 20, || {
@@ -403,13 +443,48 @@ pub fn c16(ctx: &Ctx, rep: &mut Report) {
                 3 => Pong::ThenSilent(14, 15),
                 _ => Pong::Never,
             };
-            KaCase { interval: i, timeout: t, pong, silent_transport, peer_ping_every: 0, sink_stalls_at: 0, datagram_every: 0 }
+            KaCase { interval: i, timeout: t, pong, silent_transport, peer_ping_every: 0, sink_stalls_at: 0, datagram_every: 0, sched_stall: None }
         })
     }, |c| {
         let mut o = check_ka(c);
         o.classes.push("uptime-days-to-months");
         o
     });
+}
+
+/// The endpoint is not scheduled for a while (see `KaCase::sched_stall`) at a moment when a ping is under way: its pong reaches the
+/// socket during the stall and the next tick becomes overdue, so that both are found together when the endpoint runs again. The
+/// peer answered every ping within d < min(I, T) and the pong in the socket is younger than T: the connection must stay up.
+/// (A stall that begins AFTER the last pong was taken from the socket and lasts longer than T is a different matter - no ping was
+/// sent meanwhile, the time since the last pong does exceed T - and is not generated.)
+pub const SCHED_STALL_CASES: u64 = 5 * 4 * 3 * 3;
+pub fn sched_stall_case(n: u64) -> KaCase {
+    let interval = [200u64, 1000, 2500, 10_000, 60_000][(n % 5) as usize];
+    let timeout = [interval, interval * 3 / 2 / 10 * 10, 2 * interval, 3 * interval][((n / 5) % 4) as usize];
+    let d = [15u64, interval / 4 / 10 * 10 + 5, interval / 2 / 10 * 10 + 5][((n / 20) % 3) as usize];
+    let k = [1u64, 3, 8][((n / 60) % 3) as usize];
+    // the endpoint runs again x ms after the pong arrived: late enough for the next tick to be overdue and for the PREVIOUS pong to be
+    // older than T, early enough for this pong to be younger than T
+    let lo = (interval - d).max(timeout.saturating_sub(interval)) + 1;
+    let x = lo + (timeout - lo) / 2;
+    let start = k * interval + 2;
+    let wake = k * interval + d + x;
+    KaCase { interval, timeout, pong: Pong::Const(d), silent_transport: false, peer_ping_every: 0, sink_stalls_at: 0, datagram_every: 0, sched_stall: Some((start, wake - start)) }
+}
+pub fn check_sched_stall(c: &KaCase) -> Outcome {
+    let r = run_ka(c);
+    let (at, len) = c.sched_stall.unwrap_or((0, 0));
+    if let Some((t, res)) = &r.end {
+        return Outcome::violation(
+            "c16-timeout-on-live-peer:after-a-scheduling-stall",
+            format!("I={} T={}: every ping is answered after {:?}; the endpoint was not scheduled from {at} to {} ms while the pong of the ping sent just before reached its socket; when it ran again the task ended at {t} ms with {res:?} although that pong was younger than T (pings at {:?}, pongs in the socket at {:?} us)", c.interval, c.timeout, c.pong, at + len, &r.pings[..r.pings.len().min(12)], &r.pongs_us[..r.pongs_us.len().min(12)]),
+        );
+    }
+    // pings went on afterwards
+    if !r.pings.iter().any(|p| *p > at + len + c.interval) {
+        return Outcome::violation("c16-ping-schedule:after-a-scheduling-stall", format!("I={}: no ping later than one interval after the stall ended at {} ms (pings {:?})", c.interval, at + len, r.pings));
+    }
+    Outcome::pass(true, vec!["scheduling-stall-with-a-pong-in-the-socket"])
 }
 
 /// C11 "no datagram, whatever its size or rate, terminates the connection" with keepalive configured: a steady one-way datagram flow
@@ -420,7 +495,7 @@ pub fn datagram_flow_case(i: u64) -> KaCase {
     let interval = [1000u64, 2500, 10_000][(i % 3) as usize];
     let every = [interval / 10, interval, interval * 3 / 2][((i / 3) % 3) as usize];
     let timeout = if i / 9 == 0 { interval } else { 3 * interval };
-    KaCase { interval, timeout, pong: Pong::Const(5), silent_transport: false, peer_ping_every: 0, sink_stalls_at: 0, datagram_every: every }
+    KaCase { interval, timeout, pong: Pong::Const(5), silent_transport: false, peer_ping_every: 0, sink_stalls_at: 0, datagram_every: every, sched_stall: None }
 }
 pub fn check_datagram_flow(c: &KaCase) -> Outcome {
     let r = run_ka(c);
